@@ -78,6 +78,10 @@ func (v verificationMethodValidator) verifyThumbprint(method *did.VerificationMe
 	if err != nil {
 		return fmt.Errorf("unable to get JWK: %w", err)
 	}
+	if keyAsJWK == nil {
+		// JWK() returns nil without an error when the verification method has no publicKeyJwk
+		return errors.New("unable to get JWK: publicKeyJwk is missing")
+	}
 	_ = jwk.AssignKeyID(keyAsJWK)
 	if keyAsJWK.KeyID() != method.ID.Fragment {
 		return errors.New("key thumbprint does not match ID")
